@@ -217,6 +217,7 @@ type c13Step struct {
 
 type c13Case struct {
 	tbl      *c13B64
+	RFail    bool
 	CinKind  int // 0 none, 1 undecodable, 2 tree
 	Cin      *c13J
 	Names    []string
@@ -300,8 +301,8 @@ func (c *c13Case) Coq() string {
 	for i, s := range c.Steps {
 		steps[i] = fmt.Sprintf("(%s,%s,%s)", s.Ev, coqBool(s.WOK), s.Obs.Coq())
 	}
-	return fmt.Sprintf("CHist %s %s %s %s %s %s %s %s %s %s %s %s %s",
-		c.tbl.Coq(), cin, c13Names(c.Names), coqBool(c.Allow), c13Z(c.AgeNs), coqList(ia), c13Z(c.Now0),
+	return fmt.Sprintf("CHist %s %s %s %s %s %s %s %s %s %s %s %s %s %s",
+		c.tbl.Coq(), coqBool(c.RFail), cin, c13Names(c.Names), coqBool(c.Allow), c13Z(c.AgeNs), coqList(ia), c13Z(c.Now0),
 		c13Names(c.Probe), coqBool(c.ConsOK), c13Names(c.ConsReqs), coqBool(c.ConsWOK), c.Cons.Coq(), coqList(steps))
 }
 
@@ -452,8 +453,9 @@ func c13RunHist(in c13Input, workdir string) (*c13Case, string) {
 	r.cli = &c13Client{srv: srv}
 	r.cache = &c13Cache{data: bytes.Clone(in.Cache), failRead: in.ReadFail, failWrite: in.InitWFail}
 	c.ConsWOK = !in.InitWFail
+	c.RFail = in.ReadFail
 	switch {
-	case in.ReadFail || len(in.Cache) == 0:
+	case len(in.Cache) == 0:
 		c.CinKind = 0
 	default:
 		if j, ok := c13Parse(in.Cache); ok {
